@@ -523,6 +523,17 @@ async def in_flight_duplicate_case(ctx, case: dict) -> None:
 
 
 def run_case(ctx, case: dict) -> None:
+    from .. import harness
+
+    harness.CONFIG_EXTRA.clear()
+    harness.CONFIG_EXTRA.update(case.get("config_extra") or {})
+    try:
+        _run_case(ctx, case)
+    finally:
+        harness.CONFIG_EXTRA.clear()
+
+
+def _run_case(ctx, case: dict) -> None:
     if case.get("kind") == "in-flight-duplicate":
         arun(in_flight_duplicate_case(ctx, case))
     elif case.get("kind") == "mass-park":
@@ -541,8 +552,39 @@ def run_case(ctx, case: dict) -> None:
         arun(send_case(ctx, case))
 
 
+def unknown_option_pass(ctx) -> None:
+    """'For every message the codec accepts and every gateway state': with every Config option this harness does not
+    know set to a non-default value, every send still ends in one of the three ways (pairs of sends to a sleeping node,
+    a slice of the send matrix, duplicates in flight)."""
+    from .. import harness
+
+    options = harness.unknown_options()
+    ctx.obs("unknown-config-options", len(options))
+    pool = [[DEST, 0, 1, 0, 2, "s1"], [DEST, 0, 2, 0, 2, ""], [DEST, 0, 1, 1, 3, "s2"], [DEST, 7, 2, 0, 2, ""],
+            [DEST, 255, 3, 0, 13, ""], [DEST, 0, 2, 1, 3, ""], [DEST, 0, 1, 0, 2, "s3"]]
+    for index, extra in enumerate(options):
+        if not ctx.mine(index):
+            continue
+        harness.CONFIG_EXTRA.clear()
+        harness.CONFIG_EXTRA.update(extra)
+        try:
+            for version in VERSIONS:
+                for a, b in itertools.product(pool, repeat=2):
+                    if version.startswith("2"):  # 1.x has no wake message: a held command cannot be observed there
+                        arun(pair_case(ctx, {"version": version, "sends": [a, [*b[:5], b[5] + "'"] if b[2] == 1 else b],
+                                             "config_extra": extra}))
+                for dest in ("unknown", "awake", "sleeping"):
+                    for fields in pool:
+                        arun(send_case(ctx, {"version": version, "dest": dest, "fields": fields, "buffered": None,
+                                             "intervening": "none", "config_extra": extra}))
+            ctx.clause("unknown-option-pass")
+        finally:
+            harness.CONFIG_EXTRA.clear()
+
+
 def run(ctx) -> None:
     with Reach(ANCHORS) as reach:
+        unknown_option_pass(ctx)
         for case in cases(ctx):
             arun(send_case(ctx, case))
         for version in [None, *VERSIONS]:
